@@ -432,6 +432,50 @@ Section Sound.
     destruct (p_sstore p' && _); reflexivity.
   Qed.
 
+  (* fatal alerts of the RECORD path on an established connection (conn.go notify reached from
+     processIncomingPacket: unexpected_message, decode_error): the sender's store loses the session *)
+  Theorem record_alert_evicts_client : forall p cs ss,
+    let r := cn p cs ss in
+    o_out (r_c r) = Established -> o_sid (r_c r) <> 0 ->
+    get (p_ckey p) (apply_ops (post_c cs r) (alert_ops_client p (o_sid (r_c r)))) = None.
+  Proof.
+    intros p cs ss r _ Hs. unfold alert_ops_client.
+    destruct (o_sid (r_c r) =? 0) eqn:E; [apply N.eqb_eq in E; contradiction|].
+    cbn. apply get_del_same.
+  Qed.
+
+  Theorem record_alert_evicts_server : forall p cs ss,
+    let r := cn p cs ss in
+    o_out (r_s r) = Established -> o_sid (r_s r) <> 0 ->
+    get (o_sid (r_s r)) (apply_ops (post_s ss r) (alert_ops_server (o_sid (r_s r)))) = None.
+  Proof.
+    intros p cs ss r _ Hs. unfold alert_ops_server.
+    destruct (o_sid (r_s r) =? 0) eqn:E; [apply N.eqb_eq in E; contradiction|].
+    cbn. apply get_del_same.
+  Qed.
+
+  (* ... so the next ClientHello under that key is empty, and the server does not resume the id *)
+  Theorem record_alert_not_offered : forall p cs ss p' ss',
+    let r := cn p cs ss in
+    o_out (r_c r) = Established -> o_sid (r_c r) <> 0 -> p_ckey p' = p_ckey p ->
+    r_offered (cn p' (apply_ops (post_c cs r) (alert_ops_client p (o_sid (r_c r)))) ss') = 0.
+  Proof.
+    intros p cs ss p' ss' r He Hs Hk. rewrite offered_is_offer. unfold offer. rewrite Hk.
+    subst r. rewrite (record_alert_evicts_client p cs ss He Hs). destruct (p_cstore p'); reflexivity.
+  Qed.
+
+  Theorem record_alert_not_resumed : forall p cs ss p' cs',
+    let r := cn p cs ss in
+    o_out (r_s r) = Established -> o_sid (r_s r) <> 0 ->
+    offered_id (offer p' cs') = o_sid (r_s r) ->
+    r_mode (cn p' cs' (apply_ops (post_s ss r) (alert_ops_server (o_sid (r_s r))))) = Full.
+  Proof.
+    intros p cs ss p' cs' r He Hs Ho.
+    apply unknown_session_falls_back. rewrite Ho. unfold srv_lookup.
+    subst r. rewrite (record_alert_evicts_server p cs ss He Hs).
+    destruct (p_sstore p' && _); reflexivity.
+  Qed.
+
   (* ---------------------------------------------------------------- what is stored *)
 
   Definition is_set (o : mop) : bool := match o with MSet _ _ => true | MDel _ => false end.
